@@ -501,6 +501,10 @@ def check_case(case, lean_out, real=None, use_model=True):
                 # operator is 'Id': nearest-neighbour as an operator, and for calc_H_bond, but not as an MPO graph)
                 facts['bond_from_mpo_refused_long_range_graph'] = True
                 continue
+            if name == 'mpo_from_bond' and isinstance(rep, RuntimeError) and 'no singular values' in str(rep):
+                # the two-site part of a bond operator vanishes up to rounding (pure on-site content): the residual of the
+                # subtractions passes the absolute `norm < tol_zero` test and the SVD with the same cutoff finds nothing
+                sig = 'dense.mpo_from_bond.rounding_residual_svd'
             if name == 'grouped_segment' and isinstance(rep, ZeroDivisionError):
                 sig = 'dense.grouped_segment.extract_segment_after_group_sites'
             fails.append(('property', sig, f'{name}: {rep!r}'))
